@@ -773,11 +773,12 @@ type placementEvent struct {
 	Internal []int  `json:"internal,omitempty"`
 	Picks    []int  `json:"picks,omitempty"`
 	Format   string `json:"format,omitempty"`
+	Order    string `json:"order,omitempty"`
 }
 
 // TestPlacement: VERIF_TRACE = output file, VERIF_CHAINS universes of VERIF_MAXN+1 servers, VERIF_NKEYS
-// random keys each. For n = 1..MAXN+1 the n naturally-first servers are given to fresh selectors in two
-// shuffled orders, and to the first selector the keys are asked twice.
+// random keys each. For n = 1..MAXN+1 the n naturally-first servers are given to fresh selectors in several
+// input orders (naturally sorted, byte-wise sorted, reversed, rotated, shuffled); the first selector is asked twice.
 func TestPlacement(t *testing.T) {
 	out := os.Getenv("VERIF_TRACE")
 	if out == "" {
@@ -837,9 +838,27 @@ func TestPlacement(t *testing.T) {
 		}
 		var prev []int
 		for n := 1; n <= len(univ); n++ {
-			for rep := 0; rep < 2; rep++ {
+			// the same n servers in systematically different input orders: already naturally sorted, byte-wise
+			// (sort.Strings) sorted, reversed, rotated, and seeded shuffles
+			orders := []string{"natural", "lexical", "reversed", "rotated", "shuffled"}
+			if abs.Tier() == "thorough" {
+				orders = append(orders, "shuffled")
+			}
+			for rep, order := range orders {
 				given := append([]int(nil), univ[:n]...)
-				rnd.Shuffle(len(given), func(i, j int) { given[i], given[j] = given[j], given[i] })
+				switch order {
+				case "lexical":
+					sort.Slice(given, func(i, j int) bool { return nf.f(given[i]) < nf.f(given[j]) })
+				case "reversed":
+					for i, j := 0, len(given)-1; i < j; i, j = i+1, j-1 {
+						given[i], given[j] = given[j], given[i]
+					}
+				case "rotated":
+					k := rnd.Intn(n)
+					given = append(given[k:], given[:k]...)
+				case "shuffled":
+					rnd.Shuffle(len(given), func(i, j int) { given[i], given[j] = given[j], given[i] })
+				}
 				names := make([]string, n)
 				for i, m := range given {
 					names[i] = nf.f(m)
@@ -883,7 +902,7 @@ func TestPlacement(t *testing.T) {
 					if rep == 0 && ask == 0 {
 						prev = picks
 					}
-					ev := placementEvent{T: "pick", Servers: given, Internal: internal, Picks: picks}
+					ev := placementEvent{T: "pick", Servers: given, Internal: internal, Picks: picks, Order: order}
 					if corruptAt > 0 && w.N == corruptAt {
 						ev.Picks = append([]int(nil), picks...)
 						ev.Picks[0] = given[(indexOf(given, picks[0])+1)%len(given)]
